@@ -255,6 +255,7 @@ def run_check(prop, tier):
     print("VERIF_SEED=%d property=%s tier=%s runs<=%d wall<=%ds workers=%d" % (
         base_seed, prop, tier, cfg["runs"], cfg["wall"], n_workers()))
     sys.stdout.flush()
+    os.environ["VERIF_TIER"] = tier
     sim.warmup()
     t_warm = time.time() - t0
     chunk = cfg.get("chunk", 200)
